@@ -39,6 +39,9 @@ type Sched struct {
 type Task struct {
 	s        *Sched
 	Actor    int // simulated process the task belongs to (set by the harness)
+	// Quiet suppresses yield seams for this task until the harness clears it (used to keep the
+	// bookkeeping re-read that follows a successful compare-and-swap atomic with it).
+	Quiet bool
 	ID       int
 	Name     string
 	goid     uint64
@@ -143,7 +146,7 @@ func (s *Sched) Current() *Task {
 // YieldHere is the seam entry used by wrappers and by simos: it parks the calling goroutine iff it
 // is the goroutine of the currently released task.
 func (s *Sched) YieldHere(label string) bool {
-	if t := s.Current(); t != nil {
+	if t := s.Current(); t != nil && !t.Quiet {
 		t.park(label)
 		return true
 	}
